@@ -1,8 +1,229 @@
 import DaeVerif.C15.Proofs
+/-!
+# C15 — property theorems
+
+Statements a reader should audit (namespace `DaeVerif.C15.Props`); the definitions they mention
+(`ASet`, `notify`, `setPolicy`, `runSet`, `getMin`, `getRand`, `Group`, `select`, `tried`, …) are
+the executable model in `Model.lean` — the same definitions the driver `c15drv` runs against the
+real code.  Hypothesis predicates (`HistMem`, `HistOk`/`NotifyOk`/`SetPolicyOk`, `GInv`) and the
+lemmas are in `Proofs.lean`.
+
+Reading guide.  `s.entries` = `aliveEntries` (what the set believes alive, with the cached sorting
+latency `sl` = measurement + `add_latency` offset, `0` while unmeasured); `s.idx` =
+`dialerToIndex`; `s.minD/s.minL` = the cached best; `s.lat` = `dialerToLatency`.
+`beats tol sl L` = "`sl` is better than `L`, by at least `tol`".
+-/
 namespace DaeVerif.C15.Props
 open DaeVerif.C15
 
-theorem placeholder_gate_refl (tol x : Int) (h : 0 ≤ tol) (hx : x < tol) : gate tol x x = true := by
-  simp [gate, hx]
+/-! ## A. the internal index after every history -/
+
+/-- **Index consistency, all histories.** After any sequence of notifications (alive or not, with
+or without a latency, any values) and policy switches that only name members, none of the
+`Panicf`/out-of-range points was reached, `dialerToIndex` is exactly the inverse of the
+`aliveEntries` array, and no dialer occupies two slots.  No assumption on latencies, offsets or
+tolerance. -/
+theorem index_consistent (n : Nat) (tol : Int) (offs : Nat → Int) (p : Policy) (h : List SetEv)
+    (hm : HistMem n h) :
+    let s := runSet (ASet.init n tol offs p) h
+    s.panicked = false ∧
+    (∀ k e, s.entries[k]? = some e → e.d < n ∧ s.idx e.d = Slot.at k) ∧
+    (∀ d k, d < n → s.idx d = Slot.at k → ∃ e, s.entries[k]? = some e ∧ e.d = d) ∧
+    (∀ (j k : Nat) (e e' : Entry), s.entries[j]? = some e → s.entries[k]? = some e' → e.d = e'.d → j = k) := by
+  intro s
+  obtain ⟨hi, hn⟩ := idxInv_run h (ASet.init n tol offs p) (idxInv_init n tol offs p) hm
+  have hn' : s.n = n := hn
+  have hb : ∀ k e, s.entries[k]? = some e → e.d < n ∧ s.idx e.d = Slot.at k := by
+    intro k e he
+    have := hi.bwd k e.d (by rw [ds_getElem?]; show Option.map _ (s.entries[k]?) = _; rw [he]; rfl)
+    exact ⟨hn' ▸ this.1, this.2⟩
+  refine ⟨hi.noPanic, hb, ?_, ?_⟩
+  · intro d k hd hk
+    have := hi.fwd d k (by rw [hn']; exact hd) hk
+    rw [ds_getElem?] at this
+    change Option.map _ (s.entries[k]?) = _ at this
+    cases hq : s.entries[k]? with
+    | none => rw [hq] at this; cases this
+    | some e => rw [hq] at this; exact ⟨e, rfl, by simpa using this⟩
+  · intro j k e e' hj hk hd
+    have h1 := (hb j e hj).2
+    have h2 := (hb k e' hk).2
+    rw [hd, h2] at h1
+    cases h1; rfl
+
+-- non-vacuity: a history with a swap-remove in the middle satisfies the hypothesis and ends non-trivially
+example : HistMem 3 [.notify 0 true none, .notify 1 true (some 5), .notify 2 true none, .notify 0 false none] ∧
+    (runSet (ASet.init 3 0 (fun _ => 0) .minLast)
+      [.notify 0 true none, .notify 1 true (some 5), .notify 2 true none, .notify 0 false none]).entries
+      = [⟨2, 0⟩, ⟨1, 5⟩] := by
+  constructor
+  · simp [HistMem]
+  · decide
+
+/-! ## B. the cached best, the tolerance rule (min policies) -/
+
+/-- **The invariant behind B/C**, for all histories that respect `HistOk` (members only; a
+dialer the set has a latency for keeps reporting one; sorting latency + tolerance below the
+`time.Hour` sentinel) and any tolerance `≥ 0`:
+* the cached best is a member of the alive list, and is `nil` exactly when the list is empty (min
+  policies) / always `nil` (random);
+* every alive entry's cached sorting latency is measurement + offset (0 while unmeasured);
+* **tolerance bound**: no alive entry *with a measurement* beats the cached best latency by the
+  tolerance or more;
+* the cached best latency is the best's own sorting latency, except for the optimistic "first
+  alive, never measured" choice, whose cached latency is still `time.Hour`. -/
+theorem alive_set_invariant (n : Nat) (tol : Int) (offs : Nat → Int) (p : Policy) (h : List SetEv)
+    (ht : 0 ≤ tol) (hok : HistOk (ASet.init n tol offs p) h) :
+    let s := runSet (ASet.init n tol offs p) h
+    (∀ d, s.minD = some d → ∃ e ∈ s.entries, e.d = d ∧ (e.sl = s.minL ∨ (s.minL = hour ∧ s.lat d = none))) ∧
+    (s.policy.isMin = true → (s.minD = none ↔ s.entries = [])) ∧
+    (s.policy.isMin = false → s.minD = none) ∧
+    (s.policy.isMin = true → ∀ e ∈ s.entries, e.sl = expSl s e.d) ∧
+    (s.policy.isMin = true → ∀ e ∈ s.entries, s.lat e.d ≠ none → ¬ beats s.tol e.sl s.minL) := by
+  intro s
+  have hs : SInv s := sinv_run h _ (sinv_init n tol offs p ht) hok
+  refine ⟨hs.best, ?_, hs.nonMin, hs.latCons, hs.tolBound⟩
+  intro hm
+  constructor
+  · exact hs.nilEmpty hm
+  · intro he
+    cases hD : s.minD with
+    | none => rfl
+    | some d =>
+      obtain ⟨e, hmem, _⟩ := hs.best d hD
+      rw [he] at hmem; cases hmem
+
+-- non-vacuity: tolerance 30; node 1 measures 80 against the best's 100 — no switch (20 < 30) —
+-- then 70 — switch.
+example : HistOk (ASet.init 2 30 (fun _ => 0) .minLast)
+      [.notify 0 true (some 100), .notify 1 true (some 80), .notify 1 true (some 70)] ∧
+    (runSet (ASet.init 2 30 (fun _ => 0) .minLast) [.notify 0 true (some 100), .notify 1 true (some 80)]).minD = some 0 ∧
+    (runSet (ASet.init 2 30 (fun _ => 0) .minLast)
+      [.notify 0 true (some 100), .notify 1 true (some 80), .notify 1 true (some 70)]).minD = some 1 := by
+  refine ⟨⟨⟨by decide, by intros; simp, by intro r h; cases h; decide⟩,
+           ⟨by decide, by intros; simp, by intro r h; cases h; decide⟩,
+           ⟨by decide, by intros; simp, by intro r h; cases h; decide⟩, trivial⟩, by decide, by decide⟩
+
+/-- **What `GetMinLatency(nil)` hands out** (state form; `SInv s` holds after every history by
+`alive_set_invariant`'s proof): an alive node; the latency returned with it is that node's sorting
+latency (or `time.Hour` for the never-measured first choice); and no alive node with a measurement
+beats that latency by the tolerance or more. -/
+theorem min_policy_returns_unbeaten_alive {s : ASet} (hs : SInv s) (hm : s.policy.isMin = true)
+    {d : Nat} {L : Int} (h : getMin s none = (some d, L)) :
+    (∃ e ∈ s.entries, e.d = d ∧ (e.sl = L ∨ (L = hour ∧ s.lat d = none))) ∧
+    (∀ e ∈ s.entries, s.lat e.d ≠ none → ¬ beats s.tol e.sl L) :=
+  ⟨getMin_best_latency hs h hm, getMin_tolerance hs hm h⟩
+
+/-- `GetMinLatency(excluded)`: never the excluded node, always an alive one; `nil` exactly when
+every alive node is the excluded one. -/
+theorem getMin_respects_exclusion {s : ASet} (hs : SInv s) (excl : Option Nat) :
+    (∀ d L, getMin s excl = (some d, L) → (∃ e ∈ s.entries, e.d = d) ∧ excl ≠ some d) ∧
+    ((getMin s excl).1 = none ↔ ∀ e ∈ s.entries, excl = some e.d) :=
+  ⟨fun _ _ h => getMin_some hs h, getMin_none_iff hs excl⟩
+
+/-- with the cached best excluded, the answer is a true minimum over the other alive nodes -/
+theorem getMin_excluding_best_is_minimum {s : ASet} {b d : Nat} {L : Int} (hD : s.minD = some b)
+    (h : getMin s (some b) = (some d, L)) :
+    (⟨d, L⟩ : Entry) ∈ s.entries ∧ d ≠ b ∧ ∀ e ∈ s.entries, e.d ≠ b → L ≤ e.sl :=
+  getMin_excluded_is_min hD h
+
+/-! ## C. random -/
+
+/-- **random returns only alive, non-excluded nodes — for every value of the random source** —
+and returns `nil` only when there is none. -/
+theorem random_returns_alive (rnd : Nat → Nat) (s : ASet) (excl : Option Nat) :
+    (∀ d, getRand rnd s excl = some d → (∃ e ∈ s.entries, e.d = d) ∧ excl ≠ some d) ∧
+    (getRand rnd s excl = none ↔ ∀ e ∈ s.entries, excl = some e.d) := by
+  constructor
+  · intro d h; exact (mem_randCands s excl d).mp (getRand_mem h)
+  · rw [getRand_none_iff]
+    constructor
+    · intro h e he
+      apply Classical.byContradiction
+      intro hne
+      have : e.d ∈ randCands s excl := (mem_randCands s excl e.d).mpr ⟨⟨e, he, rfl⟩, hne⟩
+      rw [h] at this; cases this
+    · intro h
+      apply List.eq_nil_iff_forall_not_mem.mpr
+      intro d hd
+      obtain ⟨⟨e, he, hed⟩, hne⟩ := (mem_randCands s excl d).mp hd
+      exact hne (by rw [← hed]; exact h e he)
+
+example : getRand (fun _ => 7) ⟨3, 0, fun _ => 0, .random, fun _ => .init, fun _ => none,
+    [⟨0, 0⟩, ⟨1, 0⟩, ⟨2, 0⟩], none, hour, false⟩ (some 1) = some 0 := by decide
+
+/-! ## D. the group: `SelectWithExclusionResult` -/
+
+/-- **fixed(i) always returns the i-th node** (whatever is alive, whatever is excluded). -/
+theorem fixed_returns_ith (rnd : Nat → Nat → Nat → Nat) (g : Group) (t : NetType) (strict : Bool)
+    (excl : Option Nat) (hp : g.policy = .fixed) (h0 : 0 ≤ g.fixedIdx) (h1 : g.fixedIdx < g.n) :
+    ∃ sel, select rnd g t strict excl = .ok ⟨g.fixedIdx.toNat, 0, sel⟩ :=
+  ⟨_, select_fixed rnd g t strict excl hp h0 h1⟩
+
+/-- **Selection returns a node the group believes alive for one of the domains it may consult**
+(`tried`: the requested type; for data UDP then DNS-UDP, then TCP, of the same family; and the same
+chain for the other family when `strict = false`), **never the excluded node** — the only other
+answer is the single-node last resort (strict call, one-node group, nothing selectable for the
+requested chain), which hands out node 0 with latency `dialer.Timeout`.  Random and min policies,
+every value of the random source. -/
+theorem select_returns_alive_of_tried_type {rnd : Nat → Nat → Nat → Nat} {g : Group} {t : NetType}
+    {strict : Bool} {excl : Option Nat} (hg : GInv g) (hp : g.policy ≠ .fixed) {x : SelOk}
+    (h : select rnd g t strict excl = .ok x) :
+    (∃ ty ∈ tried g t strict, (∃ e ∈ (g.sets ty.index).entries, e.d = x.d) ∧ excl ≠ some x.d) ∨
+    (strict = true ∧ g.n = 1 ∧ x.d = 0 ∧ x.lat = dialTimeout ∧
+      ∀ ty ∈ chain t g.policy, ∀ e ∈ (g.sets ty.index).entries, excl = some e.d) := by
+  have hhs : g.hasSets = true := by rw [hg.hasSets]; cases hq : g.policy <;> simp_all [needsAlive]
+  rcases select_ok hp (fun ty => (hg.sets hhs ty).1) h with ⟨ty, hty, h1, h2, _⟩ | h'
+  · exact Or.inl ⟨ty, hty, h1, h2⟩
+  · exact Or.inr h'
+
+/-- **The excluded node is returned only under `fixed` or as the single-node last resort.** -/
+theorem excluded_never_returned_unless_fixed_or_last_resort {rnd : Nat → Nat → Nat → Nat} {g : Group}
+    {t : NetType} {strict : Bool} {d : Nat} (hg : GInv g) {x : SelOk}
+    (h : select rnd g t strict (some d) = .ok x) (hx : x.d = d) :
+    g.policy = .fixed ∨ (strict = true ∧ g.n = 1 ∧ x.lat = dialTimeout) := by
+  by_cases hp : g.policy = .fixed
+  · exact Or.inl hp
+  · rcases select_returns_alive_of_tried_type hg hp h with ⟨_, _, _, hne⟩ | ⟨a, b, _, c, _⟩
+    · exact absurd (by rw [hx]) hne
+    · exact Or.inr ⟨a, b, c⟩
+
+/-- **"no alive dialer" exactly when no consulted domain has a selectable node** (an alive node
+other than the excluded one), the group is non-empty, and the last resort does not apply.  In
+particular: whenever some consulted domain has such a node, a node is returned. -/
+theorem no_alive_error_iff_all_tried_empty {rnd : Nat → Nat → Nat → Nat} {g : Group} {t : NetType}
+    {strict : Bool} {excl : Option Nat} (hg : GInv g) (hp : g.policy ≠ .fixed) :
+    select rnd g t strict excl = .error .noAlive ↔
+      g.n ≠ 0 ∧ ¬ (strict = true ∧ g.n = 1) ∧
+      ∀ ty ∈ tried g t strict, ∀ e ∈ (g.sets ty.index).entries, excl = some e.d := by
+  have hhs : g.hasSets = true := by rw [hg.hasSets]; cases hq : g.policy <;> simp_all [needsAlive]
+  exact select_noAlive_iff hp (fun ty => (hg.sets hhs ty).1)
+
+/-- **min policies at group level**: the node returned without exclusion is the cached best of
+the admitting domain, and no alive measured node of that domain beats the returned latency by the
+tolerance or more. -/
+theorem select_min_is_unbeaten {rnd : Nat → Nat → Nat → Nat} {g : Group} {t : NetType}
+    {strict : Bool} (hg : GInv g) (hm : g.policy.isMin = true) {x : SelOk}
+    (h : select rnd g t strict none = .ok x) (hnl : x.lat ≠ dialTimeout) :
+    ∃ ty ∈ tried g t strict, getMin (g.sets ty.index) none = (some x.d, x.lat) ∧
+      ∀ e ∈ (g.sets ty.index).entries, (g.sets ty.index).lat e.d ≠ none →
+        ¬ beats (g.sets ty.index).tol e.sl x.lat := by
+  have hp : g.policy ≠ .fixed := by intro h; rw [h] at hm; cases hm
+  have hhs : g.hasSets = true := by rw [hg.hasSets]; cases hq : g.policy <;> simp_all [needsAlive]
+  rcases select_ok hp (fun ty => (hg.sets hhs ty).1) h with ⟨ty, hty, _, _, h3⟩ | ⟨_, _, _, hl, _⟩
+  · have hgm := h3 hm
+    have hpol : (g.sets ty.index).policy.isMin = true := by rw [(hg.sets hhs ty.index).2]; exact hm
+    exact ⟨ty, hty, hgm, getMin_tolerance (hg.sets hhs ty.index).1 hpol hgm⟩
+  · exact absurd hl hnl
+
+/-- **The driver's deterministic form covers every answer**: whatever the random source, the
+answer of `select` is one of the answers listed by `selectAll` (which is what `c15drv` prints and
+the real code's answers are compared with); errors coincide. -/
+theorem select_mem_selectAll (rnd : Nat → Nat → Nat → Nat) (g : Group) (t : NetType) (strict : Bool)
+    (excl : Option Nat) :
+    match select rnd g t strict excl with
+    | .ok x => ∃ l, selectAll g t strict excl = .ok l ∧ x ∈ l
+    | .error e => selectAll g t strict excl = .error e :=
+  select_mem_all rnd g t strict excl
 
 end DaeVerif.C15.Props
